@@ -55,7 +55,8 @@ def worker(version, args):
                     st2, scn2 = common.outcome(AoE2DEScenario.from_file, fn)
                 if st2 != "ok":
                     R.case(key=key, nontrivial=True, tags=("reload:raises",))
-                    continue                                   # C04 reports files that cannot be re-loaded
+                    R.violation({"kind": "reload-raises", "error": scn2}, f"the saved file cannot be loaded again ({scn2}): nothing of what was set comes back", replay)
+                    continue
                 with cc.quiet():
                     d2 = histories.dump_managers(scn2)
                 del scn2
